@@ -842,4 +842,136 @@ theorem ringN_step {cfg : Cfg} {M : List Nat} {adr : Nat → Nat} {n : Net} {v :
     | pass => exact stepNX_pass h hok hph now e
   · exact stepL h hok i hix now e
 
+/-! ## Whole runs -/
+
+theorem Net.poll_len (n : Net) (i : Nat) (now : Int) : (n.poll i now).1.stations.length = n.stations.length := by
+  unfold Net.poll
+  rcases n.bus.deliver i now with ⟨bus, inc⟩
+  simp only
+  cases n.stations[i]? with
+  | none => rfl
+  | some st =>
+    simp only
+    split
+    · rfl
+    · split <;> simp
+
+theorem Net.poll_seenN (n : Net) (i : Nat) (now : Int) : (n.poll i now).1.bus.seen = n.bus.seen.set i now := by
+  unfold Net.poll
+  rcases hd : n.bus.deliver i now with ⟨bus, inc⟩
+  have hs : bus.seen = n.bus.seen.set i now := by
+    have : (n.bus.deliver i now).1.seen = n.bus.seen.set i now := rfl
+    rw [hd] at this
+    exact this
+  simp only
+  cases n.stations[i]? with
+  | none => exact hs
+  | some st =>
+    simp only
+    split
+    · exact hs
+    · split
+      · exact hs
+      · rename_i c _
+        cases c.tx with
+        | none => exact hs
+        | some b => exact hs
+
+/-- The schedule: events `(station, time)` in time order, every station's own poll times strictly increasing,
+at every event no station unpolled for more than `P`. -/
+def SchedN (P : Nat) : Net → Int → List (Nat × Int) → Prop
+  | _, _, [] => True
+  | n, tl, (i, now) :: rest =>
+    i < n.stations.length ∧ tl ≤ now ∧ n.bus.seen.getD i 0 < now ∧
+    (∀ j, j < n.stations.length → now ≤ n.bus.seen.getD j 0 + (P : Nat)) ∧ SchedN P (n.poll i now).1 now rest
+
+/-- The same as a condition on poll times only (`seen`: last poll times, `N`: number of stations). -/
+def SchedNT (P N : Nat) : List Int → Int → List (Nat × Int) → Prop
+  | _, _, [] => True
+  | seen, tl, (i, now) :: rest =>
+    i < N ∧ tl ≤ now ∧ seen.getD i 0 < now ∧ (∀ j, j < N → now ≤ seen.getD j 0 + (P : Nat)) ∧
+    SchedNT P N (seen.set i now) now rest
+
+theorem schedN_of_times (P : Nat) : ∀ (evs : List (Nat × Int)) (n : Net) (tl : Int),
+    SchedNT P n.stations.length n.bus.seen tl evs → SchedN P n tl evs := by
+  intro evs
+  induction evs with
+  | nil => intro _ _ _; trivial
+  | cons ev rest ih =>
+    intro n tl h
+    obtain ⟨i, now⟩ := ev
+    obtain ⟨h1, h2, h3, h4, h5⟩ := h
+    exact ⟨h1, h2, h3, h4, ih _ now (by rw [Net.poll_seenN, Net.poll_len]; exact h5)⟩
+
+/-- What a run of the stable ring looks like (`turn`: ADDRESS of the station whose turn it is, `lastEnd`: end
+of the last transmission): every poll returns regularly; only the station whose turn it is transmits; every
+transmission starts later than 33 bit times after the end of the previous one; it is a GAP request to an
+address that is not a member (the turn stays) or the token to the cyclic successor in the ascending member
+list (the turn passes to it).  Nobody claims, retries or replies. -/
+def GoodRunN (cfg : Cfg) (M : List Nat) (adr : Nat → Nat) : Net → Nat → Int → List (Nat × Int) → Prop
+  | _, _, _, [] => True
+  | n, turn, lastEnd, (i, now) :: rest =>
+    ∃ n' inc c, n.poll i now = (n', inc, some (.ok c)) ∧
+      ((c.tx = none ∧ GoodRunN cfg M adr n' turn lastEnd rest) ∨
+       (∃ b, c.tx = some b ∧ adr i = turn ∧ lastEnd + (cfg.b33 : Nat) < now ∧
+          ((∃ g, b = statusRequestBytes g (adr i) ∧ g ∉ M ∧
+              GoodRunN cfg M adr n' (adr i) (now + (cfg.ce (b.length - 1) : Nat)) rest) ∨
+           (b = tokenBytes (TokenRing.cycSucc (adr i) M) (adr i) ∧
+              GoodRunN cfg M adr n' (TokenRing.cycSucc (adr i) M) (now + (cfg.ce (b.length - 1) : Nat)) rest))))
+
+theorem ringN_run {cfg : Cfg} (hok : cfg.Ok) (hP100 : cfg.P ≤ 100000) (M : List Nat) (adr : Nat → Nat) :
+    ∀ (evs : List (Nat × Int)) (n : Net) (v : NView), NInv cfg M adr n v → SchedN cfg.P n v.tl evs →
+    GoodRunN cfg M adr n (v.turn M adr) (cEnd cfg v.tr) evs := by
+  intro evs
+  induction evs with
+  | nil => intro _ _ _ _; trivial
+  | cons ev rest ih =>
+    intro n v h hs
+    obtain ⟨i, now⟩ := ev
+    obtain ⟨hi, htl, hown, hgap, hrest⟩ := hs
+    have e : EvOkN cfg n v.tl i now := ⟨hi, htl, hown, hgap⟩
+    obtain ⟨n', v', inc, c, hp, hinv', htl', hcase⟩ := ringN_step h hok hP100 i now e
+    have hn' : (n.poll i now).1 = n' := by rw [hp]
+    rw [hn', ← htl'] at hrest
+    have ih' := ih n' v' hinv' hrest
+    refine ⟨n', inc, c, hp, ?_⟩
+    rcases hcase with ⟨htx, htr, hnx⟩ | ⟨b, htx, hit, hsync, htr, hkind⟩
+    · left
+      rw [hnx, htr] at ih'
+      exact ⟨htx, ih'⟩
+    · right
+      have hend : cEnd cfg v'.tr = now + ((cfg.ce (b.length - 1) : Nat) : Int) := by rw [htr]; rfl
+      rw [hend] at ih'
+      refine ⟨b, htx, hit, hsync, ?_⟩
+      rcases hkind with ⟨g, hb, hg, hnx⟩ | ⟨hb, hnx⟩
+      · left; rw [hnx] at ih'; exact ⟨g, hb, hg, ih'⟩
+      · right; rw [hnx] at ih'; exact ⟨hb, ih'⟩
+
+/-- The net after a run. -/
+def Net.afterN (n : Net) (evs : List (Nat × Int)) : Net := evs.foldl (fun n e => (n.poll e.1 e.2).1) n
+
+theorem ringN_inv_run {cfg : Cfg} (hok : cfg.Ok) (hP100 : cfg.P ≤ 100000) (M : List Nat) (adr : Nat → Nat) :
+    ∀ (evs : List (Nat × Int)) (n : Net) (v : NView), NInv cfg M adr n v → SchedN cfg.P n v.tl evs →
+    ∃ v', NInv cfg M adr (n.afterN evs) v' := by
+  intro evs
+  induction evs with
+  | nil => intro n v h _; exact ⟨v, h⟩
+  | cons ev rest ih =>
+    intro n v h hs
+    obtain ⟨i, now⟩ := ev
+    obtain ⟨hi, htl, hown, hgap, hrest⟩ := hs
+    have e : EvOkN cfg n v.tl i now := ⟨hi, htl, hown, hgap⟩
+    obtain ⟨n', v', inc, c, hp, hinv', htl', -⟩ := ringN_step h hok hP100 i now e
+    have hn' : (n.poll i now).1 = n' := by rw [hp]
+    rw [hn', ← htl'] at hrest
+    obtain ⟨v'', h1⟩ := ih n' v' hinv' hrest
+    refine ⟨v'', ?_⟩
+    show NInv cfg M adr (Net.afterN (n.poll i now).1 rest) v''
+    rw [hn']; exact h1
+
+/-- Silence bound: at every event the end of the last transmission lies at most `Tslot + 2P + bits 33` back. -/
+theorem ringN_silence {cfg : Cfg} {M : List Nat} {adr : Nat → Nat} {n : Net} {v : NView} (h : NInv cfg M adr n v)
+    (hok : cfg.Ok) (i : Nat) (now : Int) (e : EvOkN cfg n v.tl i now) : now ≤ cEnd cfg v.tr + (cfg.gmax : Nat) :=
+  Int.le_trans (h.now_le_H i now e) (h.horizon hok)
+
 end PV
